@@ -32,6 +32,9 @@ type c17bCase struct {
 	// Stagger (retry-class, batch >= 2): only the first call fails for ever; call i gets through
 	// after i retry-later answers, so that the batch makes progress round after round
 	Stagger bool `json:"stagger,omitempty"`
+	// RegionLevel (retry-class): the exception is reported for the whole region action of a
+	// multi-request (throttling, too busy, call queue full reject the batch, not the cheap probe)
+	RegionLevel bool `json:"region_level,omitempty"`
 }
 
 // scheduleGaps returns the minimal waits before retry 1, 2, 3...
@@ -71,6 +74,14 @@ func c17bRunInBubble(c c17bCase) (out Outcome) {
 	forever := 200
 	switch c.Scenario {
 	case "retry-class":
+		if c.RegionLevel {
+			for _, r := range cl.Regions {
+				for k := 0; k < forever; k++ {
+					r.MultiExc = append(r.MultiExc, sim.Exc{Class: c.Class, Stack: c.Class + ": persistent, region-wide"})
+				}
+			}
+			break
+		}
 		for i := 0; i < n; i++ {
 			k := forever
 			if c.Stagger && i > 0 {
@@ -316,6 +327,8 @@ func TestC17_RetrySchedule(t *testing.T) {
 		switch c.Scenario {
 		case "retry-class":
 			c.Stagger = c.Batch >= 2 && rapid.Bool().Draw(t, "stagger")
+			// (a region-level answer needs a multi-request: batched calls only)
+			c.RegionLevel = !c.Stagger && c.Queue > 1 && rapid.IntRange(0, 2).Draw(t, "regionlevel") == 0
 			c.Class = rapid.SampledFrom([]string{sim.CallQueueBig, sim.RegionOpening, sim.Throttling, sim.RetryImm, sim.TooBusy, sim.PleaseHold}).Draw(t, "class")
 		case "probe-fail":
 			c.Class = rapid.SampledFrom([]string{sim.NSRE, sim.RegionOpening, sim.RegionMoved, sim.TooBusy}).Draw(t, "class")
